@@ -750,7 +750,8 @@ def check_table(r, prefix, actual, expected, where, what="source", prog=None):
             exp_txt = " | ".join(acc)
         if ok:
             r.ok("%s/%s" % (prefix, fld), "%s = %s" % (fld, s_), where)
-        elif has_unknown(e):
+        elif has_unknown(e) or (not callable(exp) and not any("closure[" in a_ for a_ in acc) and contains(e, lambda x: x and x[0] == "call" and "array::<impl [T; N]>::map" in x[1])):
+            # an element of `[a, b, c].map(|x| f(x))` (`roots.map(|r| db.get_tree(r.0).unwrap())[1]`): the element-wise closure is not read through — undecided
             r.undecided("%s/%s" % (prefix, fld), "%s = %s (not fully recovered)" % (fld, s_), where)
         else:
             r.violation("%s/%s" % (prefix, fld), "%s = %s, expected %s" % (fld, s_, exp_txt), where)
